@@ -353,8 +353,25 @@ func TestC20Queries(t *testing.T) {
 		g.vacc = v.NextFresh()
 		nowS := nsTime(v.NowNs).Unix()
 		makeCVA(v, g.vacc, sdk.NewCoins(sdk.NewInt64Coin(Denom, 100000)), nowS-10, nowS+1000, sdk.NewCoins())
-		stateKind := rapid.IntRange(0, 2).Draw(t, "state")
-		if stateKind >= 1 {
+		stateKind := rapid.IntRange(0, 3).Draw(t, "state")
+		if stateKind == 3 {
+			// a governance-installed minter configuration (any valid one; mint denomination possibly one nobody holds yet) and a block time around it
+			mc := GenMinterCfg(t, 4, 40, 30)
+			mc.BaseNs = v.NowNs
+			mc.FirstID = 1
+			mc.Denom = []string{Denom, "uatom", "unew"}[rapid.IntRange(0, 2).Draw(t, "mintDenom")]
+			mp, sched := mc.Build()
+			v.Run(&mintertypes.MsgUpdateParams{Authority: GovAuthority(), MintDenom: mp.MintDenom, StartTime: mp.StartTime, Minters: mp.Minters})
+			bs := sched.Boundaries(mc.Horizon(), 3)
+			at := bs[rapid.IntRange(0, len(bs)-1).Draw(t, "at")] + []int64{-secNs, -1, 0, 1, secNs, dayNs}[rapid.IntRange(0, 5).Draw(t, "atOff")]
+			if at > v.NowNs {
+				v.SetNow(at)
+			}
+			if rapid.Bool().Draw(t, "runBlock") {
+				mintBlock(v.W, v.Ctx, mp.MintDenom, v.NowNs)
+			}
+		}
+		if stateKind == 1 || stateKind == 2 {
 			v.Run(&vestingtypes.MsgCreateVestingPool{Owner: g.owner.String(), Name: "p0", Amount: sdk.NewInt(1000), Duration: time.Hour, VestingType: "vt0"})
 			v.Run(&vestingtypes.MsgSendToVestingAccount{Owner: g.owner.String(), ToAddress: v.NextFresh().String(), VestingPoolName: "p0", Amount: sdk.NewInt(10)})
 		}
